@@ -96,6 +96,30 @@ def normBody (body : Bytes) : Bytes :=
   let n := lfToCrlf 0 body
   if n.isEmpty || !(hasSuffix n [13, 10]) then n ++ [13, 10] else n
 
+/-- C09, client half: while the exchange goes on (the server answers 334 with a decodable challenge and the
+    mechanism answers with octets), the challenge reaches the mechanism decoded and unaltered, and the
+    mechanism's octets — empty ones included — are sent as the next line, base64-encoded.
+    `chunks[i]` is the reply to `lines[i]`; `seen[i]` the challenge handed to the i-th `Next` call. -/
+def authFaithful (fuel : Nat) (i : Nat) (lines chunks seen : List Bytes) (steps : List (Option (Option Bytes))) : List String :=
+  match fuel with
+  | 0 => []
+  | fuel + 1 =>
+    match chunks[i]? with
+    | none => []
+    | some ch =>
+      let l := trimRightCRLF ch
+      if !("334 ".b.isPrefixOf l || l == "334".b) || l.contains 10 then [] else
+      match Server.b64Decode (l.drop 4) with
+      | none => []
+      | some challenge =>
+        (if seen[i]? != some challenge then ["C09 a server challenge did not reach the client mechanism unaltered"] else []) ++
+        (match steps[i]? with
+         | some (some (some r)) =>
+           (if lines[i + 1]? != some (Server.b64Encode r)
+            then ["C09 the client mechanism's response was not sent to the server unaltered"] else []) ++
+           authFaithful fuel (i + 1) lines chunks seen steps
+         | _ => [])
+
 def step (lmtp : Bool) (m : M) (o : Obs) : M × List String :=
   let (ls, _) := splitCRLF o.written
   -- replay the peer on every written line (message data lines included: the peer is in data mode then)
@@ -167,8 +191,30 @@ def step (lmtp : Bool) (m : M) (o : Obs) : M × List String :=
         else []
       else []
     | _ => []
+  -- C18 "Close returns once exactly those replies have been read": afterwards every simple command gets its *own* reply,
+  -- i.e. the one the peer released for that command's line (left-over or over-read replies shift them)
+  let badOwn : List String :=
+    let want : Option Nat := match o.call with | .noop => some 250 | .reset => some 250 | .quit => some 221 | _ => none
+    match want, ls.getLast? with
+    | some code, some lastLine =>
+      -- replay up to the last line to learn which chunk it released
+      let mBefore := (ls.dropLast).foldl (fun (acc : M) l => (feedLine acc l).1) m
+      let chunk := (feedLine mBefore lastLine).2
+      let l := trimRightCRLF chunk
+      let single := !l.contains 10 && l.length ≥ 4 && (l.take 3).all isDigit && l[3]? == some 32
+      if !single || isHelloLine lastLine then []
+      else
+        let own := (parseUintDec (l.take 3) 16).getD 0
+        if (own == code) != (o.res == "nil") && (own == code || own / 100 == 4 || own / 100 == 5)
+        then ["C18 a command was answered with a reply that is not its own (replies of an LMTP transaction were left unread or over-read)"]
+        else []
+    | _, _ => []
   let bad09 : List String := match o.call with
     | .auth _ _ steps =>
+      let chunksAll := (ls.foldl (fun (acc : M × List Bytes) l => let (m', r) := feedLine acc.1 l; (m', acc.2 ++ [r])) (m, [])).2
+      let seen := if o.extra == "" then [] else (o.extra.splitOn "+").map bytesOfHex
+      let i0 := (ls.findIdx? (fun l => "AUTH ".b.isPrefixOf l)).getD ls.length      -- an EHLO may precede the AUTH line
+      authFaithful (steps.length + 1) 0 (ls.drop i0) (chunksAll.drop i0) seen steps ++
       let starIdx := ls.findIdx? (· == [42])
       match starIdx with
       | none => if steps.contains none && o.res == "err" && ls.length > 0 then [] else []
@@ -182,7 +228,7 @@ def step (lmtp : Bool) (m : M) (o : Obs) : M × List String :=
     | _ => []
   ({ m2 with lastWasClose := closeIdx.isSome,
              closedW := (match closeIdx with | some i => if i < m.nWriters then i :: m.closedW else m.closedW | none => m.closedW) },
-   bad15 ++ bad16 ++ bad18 ++ bad09)
+   bad15 ++ bad16 ++ bad18 ++ badOwn ++ bad09)
 
 def check (pid : String) (lmtp : Bool) (peer : Client.Peer) (obs : List Obs) : List String :=
   let (_, bad) := obs.foldl (fun (acc : M × List String) o => let (m', b) := step lmtp acc.1 o; (m', acc.2 ++ b))
